@@ -38,8 +38,56 @@ var specials = []float64{
 	1e300, -1e300, 1e-300, 8.41e21, 12345678901234567890, 1e100, 3.141592653589793, 179.99999999999997, 4503599627370496.5,
 }
 
+// edges: ordinates at exact powers of two and at the integer-conversion / formatter-switch edges (int32, uint32,
+// int64, uint64, 2^53, powers of ten that are exact doubles, largest/smallest finite, subnormals, many-digit integers).
+// A code path that sends "whole" ordinates through an integer type, a narrower float, or a different formatter
+// differs from the float64 path exactly at such values (e.g. float64(math.MaxInt64) == 2^63 overflows int64).
+var edges = func() []float64 {
+	var e []float64
+	add := func(v float64) {
+		up, dn := math.Nextafter(v, math.Inf(1)), math.Nextafter(v, math.Inf(-1))
+		for _, x := range []float64{v, up, dn, v + 1, v - 1, v + 0.5, v - 0.5} {
+			if !math.IsInf(x, 0) {
+				e = append(e, x, -x)
+			}
+		}
+	}
+	for _, k := range []int{7, 8, 15, 16, 23, 24, 31, 32, 52, 53, 54, 62, 63, 64, 65, 100, 127, 128, 1023} {
+		add(math.Ldexp(1, k))
+	}
+	for _, k := range []int{-1, -24, -126, -149, -1021, -1022, -1023, -1073, -1074} {
+		v := math.Ldexp(1, k)
+		e = append(e, v, -v, math.Nextafter(v, 1), -math.Nextafter(v, 1), math.Nextafter(v, 0), -math.Nextafter(v, 0))
+	}
+	for k := 0; k <= 23; k++ { // 10^k: exact doubles up to 1e22; encoding/json changes notation at 1e21
+		add(math.Pow(10, float64(k)))
+	}
+	e = append(e, math.MaxFloat64, -math.MaxFloat64, math.MaxFloat32, -math.MaxFloat32, math.SmallestNonzeroFloat64, -math.SmallestNonzeroFloat64,
+		math.SmallestNonzeroFloat32, 0x1p-1022, 0x0.fffffffffffffp-1022, math.Copysign(0, -1), 0,
+		float64(math.MaxInt64), float64(math.MinInt64), float64(math.MaxUint64), float64(math.MaxInt32), float64(math.MinInt32), float64(math.MaxUint32),
+		9223372036854774784, 9223372036854777856, 18446744073709549568, 18446744073709555712, // float neighbours of 2^63, 2^64
+		123456789012345678, 999999999999999983222784, 987654321098765432109, 100000000000000000000, 999999999999999868928, // many digits, < and > 1e21
+		1e19, -1e19, 1.8446744073709552e19, 4294967295.5, 2147483647.5, -2147483648.5, 1e308, 1.7976931348623155e308)
+	return e
+}()
+
 func coord(r *vproto.Rng, nonFinite bool) float64 {
-	switch r.Intn(16) {
+	switch r.Intn(18) {
+	case 16:
+		return edges[r.Intn(len(edges))]
+	case 17:
+		// +-2^k and its float neighbours, any k of the finite range
+		f := math.Ldexp(1, r.Range(-1074, 1023))
+		switch r.Intn(4) {
+		case 0:
+			f = math.Nextafter(f, math.Inf(1))
+		case 1:
+			f = math.Nextafter(f, 0)
+		}
+		if r.Bool() {
+			f = -f
+		}
+		return f
 	case 0:
 		for {
 			f := math.Float64frombits(r.U64())
@@ -219,6 +267,24 @@ func wide(r *vproto.Rng, k, level, w int) geom.Geom {
 	}
 }
 
+// edgeGeoms puts the ordinate v into every type at every kind of position (X / Y; first / later position;
+// first / later member at each nesting level); all other ordinates are small integers
+func edgeGeoms(v float64, i int) []geom.Geom {
+	P := func(x, y float64) geom.Point { return geom.Point{X: x, Y: y} }
+	a, b := P(v, 1), P(2, v) // v as X, v as Y
+	if i%2 == 1 {
+		a, b = P(3, v), P(v, 4)
+	}
+	o, q := P(5, 6), P(7, 8)
+	return []geom.Geom{
+		a, b, P(v, v), P(v, -v),
+		geom.MultiPoint{a, o, b}, geom.MultiPoint{o, q, a}, geom.LineString{b, o}, geom.LineString{o, a, q, b},
+		geom.MultiLineString{{a, o}, {q, b}}, geom.MultiLineString{{o}, {}, {q, o, a}},
+		geom.Polygon{{a, o, q, a}, {o, b, q, o}}, geom.Polygon{{o, q, o}, {q, o, b, q}, {}},
+		geom.MultiPolygon{{{a, o, q, a}}, {{o, q, o}, {q, b, o, q}}}, geom.MultiPolygon{{{o, q, b}, {a}}, {}, {{o}, {q, a}}},
+	}
+}
+
 // ---- generic JSON documents written by the generator (for dec / fromt lines)
 
 type node struct {
@@ -366,6 +432,9 @@ func jsonNum(r *vproto.Rng, f float64) string {
 		case 2:
 			return strings.Replace(strconv.FormatFloat(f, 'e', -1, 64), "e", "E", 1)
 		}
+	}
+	if f == math.Trunc(f) && math.Abs(f) >= 1e15 && math.Abs(f) < 1e40 && r.Intn(3) == 0 {
+		return strconv.FormatFloat(f, 'f', -1, 64) // all integer digits spelled out (9223372036854775808)
 	}
 	s := strconv.FormatFloat(f, 'g', -1, 64)
 	if r.Intn(6) == 0 {
@@ -583,6 +652,18 @@ func gen(seed uint64, tier string) {
 	for _, x := range specials {
 		emit(P(x, -x))
 		emit(geom.MultiPoint{P(x, 1), P(2, x)})
+	}
+	for i, v := range edges {
+		for _, g := range edgeGeoms(v, i) {
+			emit(g)
+		}
+		// the same ordinates read by the decoder from generator-written documents (several spellings)
+		for j, g := range edgeGeoms(v, i+1) {
+			if (i+j)%3 == 0 {
+				ty, c, _ := coordsNode(g)
+				emitDoc(ty, c, document(r, ty, c), false)
+			}
+		}
 	}
 	for i := 0; i < n; i++ {
 		var g geom.Geom
